@@ -23,8 +23,15 @@ def mkPend (d : WorldDesc) : Pend := fun b k prev _ _ =>
   | some ops => pendOps ops (prev.getD (.atom 0)) 1
   | none => []
 
+/-- pending point of the handler's future: after the call event it awaits the handler gate (a handler that panics does so
+    when it is called: there is no future to wait for) -/
+def mkPendH (d : WorldDesc) : PendH := fun _ =>
+  match d.handlerOut with
+  | .panic _ => []
+  | _ => if d.handlerGate != 0 then [(1, d.handlerGate)] else []
+
 /-- polls until done or the schedule is used up: events per poll -/
-def runPolls : List Gates → Plan MEv (UR Value) (Res Fin) → List (List MEv) × Plan MEv (UR Value) (Res Fin)
+def runPolls {ρ : Type} : List Gates → Plan MEv (UR Value) ρ → List (List MEv) × Plan MEv (UR Value) ρ
   | [], p => ([], p)
   | g :: gs, p =>
     let r := p.poll g
@@ -39,40 +46,22 @@ def cumulative : List (List Nat) → List Nat → List Gates
   | [], acc => [gatesOf acc]
   | b :: bs, acc => gatesOf acc :: cumulative bs (acc ++ b)
 
-def showFinRes (c : SpecCfg) (h : Option HKind) (d : WorldDesc) (r : Res Fin) : List MEv × String :=
-  match r with
-  | .ok f =>
-    let m := specHandle c h f
-    (m.trace, showRes m.res)
-  | .panic s => ([], "panic " ++ showSite s)
-  | .stuck => ([], "stuck")
-
-/-- `APOLL`: the model's prediction for program `p` (async kind) in world `d` under the gate schedule `batches` -/
+/-- `APOLL`: the model's prediction for program `p` (async kind) in world `d` under the gate schedule `batches`:
+    the plan of the whole block (`planRun`: handler definition, step loop, handler call), polled once per batch -/
 def apollLine (p : Input) (kind : Kind) (d : WorldDesc) (batches : List (List Nat)) : String :=
   let σ := mkWorld d
   let c : SpecCfg := ⟨σ, kind, p.branches.map (fun b => b.pat.map (·.ident)), some "main",
                       p.branches.map fun b => splitSteps b.members⟩
-  let hdef : M Unit := match p.handler with
-    | some _ => (M.tell [.ev .handlerDef]).andThen fun _ => M.lift σ.handlerDef.toRes
-    | none => M.ret ()
-  match hdef.res with
-  | .ok _ =>
-    let pl := planLoop c (mkPend d) (c.maxDepth - 1) 0 (List.replicate c.n none)
-    let r := runPolls (cumulative batches []) pl.2
-    -- the handler definition and the captures of step 0 belong to the first poll
-    let polls : List (List MEv) := match r.1 with
-      | [] => []
-      | first :: more => (hdef.trace ++ pl.1 ++ first) :: more
-    match r.2 with
-    | .done x =>
-      let fin := showFinRes c (p.handler.map Prod.fst) d x
-      let polls' := match polls.reverse with
-        | last :: before => (before.reverse ++ [last ++ fin.1])
-        | [] => [fin.1]
-      fin.2 ++ "\t" ++ " | ".intercalate (polls'.map fun evs => " ".intercalate (evs.map showMEv))
-    | _ => "PENDING\t" ++ " | ".intercalate (polls.map fun evs => " ".intercalate (evs.map showMEv))
-  | .panic s => "panic " ++ showSite s ++ "\t" ++ " ".intercalate (hdef.trace.map showMEv)
-  | .stuck => "stuck\t"
+  let pr := planRun c (mkPend d) (mkPendH d) (p.handler.map Prod.fst)
+  let r := runPolls (cumulative batches []) pr.2
+  -- the handler definition and the captures of step 0 belong to the first poll
+  let polls : List (List MEv) := match r.1 with
+    | [] => [pr.1]
+    | first :: more => (pr.1 ++ first) :: more
+  let shown := " | ".intercalate (polls.map fun evs => " ".intercalate (evs.map showMEv))
+  match r.2 with
+  | .done x => showRes x ++ "\t" ++ shown
+  | _ => "PENDING\t" ++ shown
 
 def parseBatches (s : String) : Option (List (List Nat)) :=
   if trimS s = "-" then some [] else
